@@ -20,6 +20,11 @@ Definition table : list helper := [
       {| a_loc := "boltz.BaseStore.parent"; a_kind := ARead; a_sync := false; a_via := "boltz.BaseStore.GetEntitiesBucket" |};
       {| a_loc := "boltz.BaseStore.publicSymbols"; a_kind := ARead; a_sync := false; a_via := "boltz.BaseStore.IsPublicSymbol" |};
       {| a_loc := "boltz.BaseStore.symbols"; a_kind := ARead; a_sync := true; a_via := "boltz.BaseStore.GetSymbol" |};
+      {| a_loc := "boltz.ExternalSymbol.impl"; a_kind := ARead; a_sync := false; a_via := "boltz.ExternalSymbol.Eval" |};
+      {| a_loc := "boltz.ExternalSymbol.nodeType"; a_kind := ARead; a_sync := false; a_via := "boltz.ExternalSymbol.GetType" |};
+      {| a_loc := "boltz.NewBoolFuncSymbol$f"; a_kind := ARead; a_sync := false; a_via := "boltz.NewBoolFuncSymbol$lit1" |};
+      {| a_loc := "boltz.NewStringFuncSymbol$f"; a_kind := ARead; a_sync := false; a_via := "boltz.NewStringFuncSymbol$lit1" |};
+      {| a_loc := "boltz.entityIdSymbol.symbolType"; a_kind := ARead; a_sync := false; a_via := "boltz.entityIdSymbol.GetType" |};
       {| a_loc := "zitiql.ZitiQlLexerLexerStaticData"; a_kind := AWrite; a_sync := true; a_via := "zitiql.zitiqllexerLexerInit" |};
       {| a_loc := "zitiql.ZitiQlLexerLexerStaticData"; a_kind := ARead; a_sync := false; a_via := "zitiql.NewZitiQlLexer" |};
       {| a_loc := "zitiql.ZitiQlLexerLexerStaticData"; a_kind := ARead; a_sync := true; a_via := "zitiql.ZitiQlLexerInit" |};
@@ -38,24 +43,71 @@ Definition table : list helper := [
       {| a_loc := "boltz.BaseStore.mapSymbols"; a_kind := ARead; a_sync := false; a_via := "boltz.BaseStore.GetSymbol" |};
       {| a_loc := "boltz.BaseStore.parent"; a_kind := ARead; a_sync := false; a_via := "boltz.BaseStore.GetEntitiesBucket" |};
       {| a_loc := "boltz.BaseStore.publicSymbols"; a_kind := ARead; a_sync := false; a_via := "boltz.BaseStore.IsPublicSymbol" |};
-      {| a_loc := "boltz.BaseStore.symbols"; a_kind := ARead; a_sync := true; a_via := "boltz.BaseStore.GetSymbol" |}] |};
+      {| a_loc := "boltz.BaseStore.symbols"; a_kind := ARead; a_sync := true; a_via := "boltz.BaseStore.GetSymbol" |};
+      {| a_loc := "boltz.ExternalSymbol.impl"; a_kind := ARead; a_sync := false; a_via := "boltz.ExternalSymbol.Eval" |};
+      {| a_loc := "boltz.ExternalSymbol.nodeType"; a_kind := ARead; a_sync := false; a_via := "boltz.ExternalSymbol.GetType" |};
+      {| a_loc := "boltz.NewBoolFuncSymbol$f"; a_kind := ARead; a_sync := false; a_via := "boltz.NewBoolFuncSymbol$lit1" |};
+      {| a_loc := "boltz.NewStringFuncSymbol$f"; a_kind := ARead; a_sync := false; a_via := "boltz.NewStringFuncSymbol$lit1" |};
+      {| a_loc := "boltz.entityIdSymbol.symbolType"; a_kind := ARead; a_sync := false; a_via := "boltz.entityIdSymbol.GetType" |}] |};
+  {| h_name := "boltz.BaseStore.FindById"; h_acc := [
+      {| a_loc := "boltz.BaseStore.entityPath"; a_kind := ARead; a_sync := false; a_via := "boltz.BaseStore.GetEntitiesBucket" |};
+      {| a_loc := "boltz.BaseStore.entityStrategy"; a_kind := ARead; a_sync := false; a_via := "boltz.BaseStore.FindById" |};
+      {| a_loc := "boltz.BaseStore.isExtended"; a_kind := ARead; a_sync := false; a_via := "boltz.BaseStore.IsExtended" |};
+      {| a_loc := "boltz.BaseStore.parent"; a_kind := ARead; a_sync := false; a_via := "boltz.BaseStore.GetEntitiesBucket" |}] |};
+  {| h_name := "boltz.BaseStore.FindMatching"; h_acc := [
+      {| a_loc := "boltz.BaseStore.entityPath"; a_kind := ARead; a_sync := false; a_via := "boltz.BaseStore.GetEntitiesBucket" |};
+      {| a_loc := "boltz.BaseStore.parent"; a_kind := ARead; a_sync := false; a_via := "boltz.BaseStore.GetEntitiesBucket" |};
+      {| a_loc := "boltz.entitySetSymbolImpl.getBucketF"; a_kind := ARead; a_sync := false; a_via := "boltz.entitySetSymbolImpl.EvalStringList" |};
+      {| a_loc := "boltz.entitySetSymbolImpl.key"; a_kind := ARead; a_sync := false; a_via := "boltz.entitySetSymbolImpl.EvalStringList" |};
+      {| a_loc := "boltz.entitySetSymbolImpl.store"; a_kind := ARead; a_sync := false; a_via := "boltz.entitySetSymbolImpl.EvalStringList" |};
+      {| a_loc := "boltz.setIndex.indexPath"; a_kind := ARead; a_sync := false; a_via := "boltz.setIndex.Read" |};
+      {| a_loc := "boltz.setIndex.symbol"; a_kind := ARead; a_sync := false; a_via := "boltz.setIndex.GetSymbol" |}] |};
+  {| h_name := "boltz.BaseStore.FindMatchingAnyOf"; h_acc := [
+      {| a_loc := "boltz.setIndex.indexPath"; a_kind := ARead; a_sync := false; a_via := "boltz.setIndex.Read" |}] |};
   {| h_name := "boltz.BaseStore.GetPublicSymbols"; h_acc := [
       {| a_loc := "boltz.BaseStore.publicSymbols"; a_kind := ARead; a_sync := false; a_via := "boltz.BaseStore.GetPublicSymbols" |}] |};
+  {| h_name := "boltz.BaseStore.GetRelatedEntitiesCursor"; h_acc := [
+      {| a_loc := "boltz.BaseStore.entityPath"; a_kind := ARead; a_sync := false; a_via := "boltz.BaseStore.GetEntitiesBucket" |};
+      {| a_loc := "boltz.BaseStore.parent"; a_kind := ARead; a_sync := false; a_via := "boltz.BaseStore.GetEntitiesBucket" |}] |};
+  {| h_name := "boltz.BaseStore.GetRelatedEntitiesIdList"; h_acc := [
+      {| a_loc := "boltz.BaseStore.entityPath"; a_kind := ARead; a_sync := false; a_via := "boltz.BaseStore.GetEntitiesBucket" |};
+      {| a_loc := "boltz.BaseStore.parent"; a_kind := ARead; a_sync := false; a_via := "boltz.BaseStore.GetEntitiesBucket" |}] |};
   {| h_name := "boltz.BaseStore.GetSetSymbolTypes"; h_acc := [
       {| a_loc := "boltz.BaseStore.entityPath"; a_kind := ARead; a_sync := false; a_via := "boltz.BaseStore.GetEntitiesBucket" |};
       {| a_loc := "boltz.BaseStore.mapSymbols"; a_kind := ARead; a_sync := false; a_via := "boltz.BaseStore.GetSymbol" |};
       {| a_loc := "boltz.BaseStore.parent"; a_kind := ARead; a_sync := false; a_via := "boltz.BaseStore.GetEntitiesBucket" |};
-      {| a_loc := "boltz.BaseStore.symbols"; a_kind := ARead; a_sync := true; a_via := "boltz.BaseStore.GetSymbol" |}] |};
+      {| a_loc := "boltz.BaseStore.symbols"; a_kind := ARead; a_sync := true; a_via := "boltz.BaseStore.GetSymbol" |};
+      {| a_loc := "boltz.ExternalSymbol.impl"; a_kind := ARead; a_sync := false; a_via := "boltz.ExternalSymbol.Eval" |};
+      {| a_loc := "boltz.ExternalSymbol.nodeType"; a_kind := ARead; a_sync := false; a_via := "boltz.ExternalSymbol.GetType" |};
+      {| a_loc := "boltz.NewBoolFuncSymbol$f"; a_kind := ARead; a_sync := false; a_via := "boltz.NewBoolFuncSymbol$lit1" |};
+      {| a_loc := "boltz.NewStringFuncSymbol$f"; a_kind := ARead; a_sync := false; a_via := "boltz.NewStringFuncSymbol$lit1" |};
+      {| a_loc := "boltz.entityIdSymbol.symbolType"; a_kind := ARead; a_sync := false; a_via := "boltz.entityIdSymbol.GetType" |}] |};
   {| h_name := "boltz.BaseStore.GetSymbol"; h_acc := [
       {| a_loc := "boltz.BaseStore.entityPath"; a_kind := ARead; a_sync := false; a_via := "boltz.BaseStore.GetEntitiesBucket" |};
       {| a_loc := "boltz.BaseStore.mapSymbols"; a_kind := ARead; a_sync := false; a_via := "boltz.BaseStore.GetSymbol" |};
       {| a_loc := "boltz.BaseStore.parent"; a_kind := ARead; a_sync := false; a_via := "boltz.BaseStore.GetEntitiesBucket" |};
-      {| a_loc := "boltz.BaseStore.symbols"; a_kind := ARead; a_sync := true; a_via := "boltz.BaseStore.GetSymbol" |}] |};
+      {| a_loc := "boltz.BaseStore.symbols"; a_kind := ARead; a_sync := true; a_via := "boltz.BaseStore.GetSymbol" |};
+      {| a_loc := "boltz.ExternalSymbol.impl"; a_kind := ARead; a_sync := false; a_via := "boltz.ExternalSymbol.Eval" |};
+      {| a_loc := "boltz.ExternalSymbol.nodeType"; a_kind := ARead; a_sync := false; a_via := "boltz.ExternalSymbol.GetType" |};
+      {| a_loc := "boltz.NewBoolFuncSymbol$f"; a_kind := ARead; a_sync := false; a_via := "boltz.NewBoolFuncSymbol$lit1" |};
+      {| a_loc := "boltz.NewStringFuncSymbol$f"; a_kind := ARead; a_sync := false; a_via := "boltz.NewStringFuncSymbol$lit1" |};
+      {| a_loc := "boltz.entityIdSymbol.symbolType"; a_kind := ARead; a_sync := false; a_via := "boltz.entityIdSymbol.GetType" |}] |};
   {| h_name := "boltz.BaseStore.GetSymbolType"; h_acc := [
       {| a_loc := "boltz.BaseStore.entityPath"; a_kind := ARead; a_sync := false; a_via := "boltz.BaseStore.GetEntitiesBucket" |};
       {| a_loc := "boltz.BaseStore.mapSymbols"; a_kind := ARead; a_sync := false; a_via := "boltz.BaseStore.GetSymbol" |};
       {| a_loc := "boltz.BaseStore.parent"; a_kind := ARead; a_sync := false; a_via := "boltz.BaseStore.GetEntitiesBucket" |};
-      {| a_loc := "boltz.BaseStore.symbols"; a_kind := ARead; a_sync := true; a_via := "boltz.BaseStore.GetSymbol" |}] |};
+      {| a_loc := "boltz.BaseStore.symbols"; a_kind := ARead; a_sync := true; a_via := "boltz.BaseStore.GetSymbol" |};
+      {| a_loc := "boltz.ExternalSymbol.impl"; a_kind := ARead; a_sync := false; a_via := "boltz.ExternalSymbol.Eval" |};
+      {| a_loc := "boltz.ExternalSymbol.nodeType"; a_kind := ARead; a_sync := false; a_via := "boltz.ExternalSymbol.GetType" |};
+      {| a_loc := "boltz.NewBoolFuncSymbol$f"; a_kind := ARead; a_sync := false; a_via := "boltz.NewBoolFuncSymbol$lit1" |};
+      {| a_loc := "boltz.NewStringFuncSymbol$f"; a_kind := ARead; a_sync := false; a_via := "boltz.NewStringFuncSymbol$lit1" |};
+      {| a_loc := "boltz.entityIdSymbol.symbolType"; a_kind := ARead; a_sync := false; a_via := "boltz.entityIdSymbol.GetType" |}] |};
+  {| h_name := "boltz.BaseStore.IsEntityPresent"; h_acc := [
+      {| a_loc := "boltz.BaseStore.entityPath"; a_kind := ARead; a_sync := false; a_via := "boltz.BaseStore.GetEntitiesBucket" |};
+      {| a_loc := "boltz.BaseStore.parent"; a_kind := ARead; a_sync := false; a_via := "boltz.BaseStore.GetEntitiesBucket" |}] |};
+  {| h_name := "boltz.BaseStore.IsEntityRelated"; h_acc := [
+      {| a_loc := "boltz.BaseStore.entityPath"; a_kind := ARead; a_sync := false; a_via := "boltz.BaseStore.GetEntitiesBucket" |};
+      {| a_loc := "boltz.BaseStore.parent"; a_kind := ARead; a_sync := false; a_via := "boltz.BaseStore.GetEntitiesBucket" |}] |};
   {| h_name := "boltz.BaseStore.IsPublicSymbol"; h_acc := [
       {| a_loc := "boltz.BaseStore.mapSymbols"; a_kind := ARead; a_sync := false; a_via := "boltz.BaseStore.IsPublicSymbol" |};
       {| a_loc := "boltz.BaseStore.publicSymbols"; a_kind := ARead; a_sync := false; a_via := "boltz.BaseStore.IsPublicSymbol" |}] |};
@@ -63,21 +115,55 @@ Definition table : list helper := [
       {| a_loc := "boltz.BaseStore.entityPath"; a_kind := ARead; a_sync := false; a_via := "boltz.BaseStore.GetEntitiesBucket" |};
       {| a_loc := "boltz.BaseStore.mapSymbols"; a_kind := ARead; a_sync := false; a_via := "boltz.BaseStore.GetSymbol" |};
       {| a_loc := "boltz.BaseStore.parent"; a_kind := ARead; a_sync := false; a_via := "boltz.BaseStore.GetEntitiesBucket" |};
-      {| a_loc := "boltz.BaseStore.symbols"; a_kind := ARead; a_sync := true; a_via := "boltz.BaseStore.GetSymbol" |}] |};
+      {| a_loc := "boltz.BaseStore.symbols"; a_kind := ARead; a_sync := true; a_via := "boltz.BaseStore.GetSymbol" |};
+      {| a_loc := "boltz.ExternalSymbol.impl"; a_kind := ARead; a_sync := false; a_via := "boltz.ExternalSymbol.Eval" |};
+      {| a_loc := "boltz.ExternalSymbol.nodeType"; a_kind := ARead; a_sync := false; a_via := "boltz.ExternalSymbol.GetType" |};
+      {| a_loc := "boltz.NewBoolFuncSymbol$f"; a_kind := ARead; a_sync := false; a_via := "boltz.NewBoolFuncSymbol$lit1" |};
+      {| a_loc := "boltz.NewStringFuncSymbol$f"; a_kind := ARead; a_sync := false; a_via := "boltz.NewStringFuncSymbol$lit1" |};
+      {| a_loc := "boltz.entityIdSymbol.symbolType"; a_kind := ARead; a_sync := false; a_via := "boltz.entityIdSymbol.GetType" |}] |};
   {| h_name := "boltz.BaseStore.IterateIds"; h_acc := [
       {| a_loc := "ast.EmptyCursor"; a_kind := ARead; a_sync := false; a_via := "boltz.BaseStore.IterateIds" |};
       {| a_loc := "boltz.BaseStore.entityPath"; a_kind := ARead; a_sync := false; a_via := "boltz.BaseStore.GetEntitiesBucket" |};
       {| a_loc := "boltz.BaseStore.isExtended"; a_kind := ARead; a_sync := false; a_via := "boltz.BaseStore.IsExtended" |};
       {| a_loc := "boltz.BaseStore.mapSymbols"; a_kind := ARead; a_sync := false; a_via := "boltz.BaseStore.GetSymbol" |};
       {| a_loc := "boltz.BaseStore.parent"; a_kind := ARead; a_sync := false; a_via := "boltz.BaseStore.GetEntitiesBucket" |};
-      {| a_loc := "boltz.BaseStore.symbols"; a_kind := ARead; a_sync := true; a_via := "boltz.BaseStore.GetSymbol" |}] |};
+      {| a_loc := "boltz.BaseStore.symbols"; a_kind := ARead; a_sync := true; a_via := "boltz.BaseStore.GetSymbol" |};
+      {| a_loc := "boltz.ExternalSymbol.impl"; a_kind := ARead; a_sync := false; a_via := "boltz.ExternalSymbol.Eval" |};
+      {| a_loc := "boltz.ExternalSymbol.name"; a_kind := ARead; a_sync := false; a_via := "boltz.ExternalSymbol.GetName" |};
+      {| a_loc := "boltz.ExternalSymbol.nodeType"; a_kind := ARead; a_sync := false; a_via := "boltz.ExternalSymbol.GetType" |};
+      {| a_loc := "boltz.NewBoolFuncSymbol$f"; a_kind := ARead; a_sync := false; a_via := "boltz.NewBoolFuncSymbol$lit1" |};
+      {| a_loc := "boltz.NewStringFuncSymbol$f"; a_kind := ARead; a_sync := false; a_via := "boltz.NewStringFuncSymbol$lit1" |};
+      {| a_loc := "boltz.entityIdSymbol.symbolType"; a_kind := ARead; a_sync := false; a_via := "boltz.entityIdSymbol.GetType" |};
+      {| a_loc := "boltz.entitySetSymbolImpl.getBucketF"; a_kind := ARead; a_sync := false; a_via := "boltz.entitySetSymbolImpl.openBoltCursor" |};
+      {| a_loc := "boltz.entitySetSymbolImpl.key"; a_kind := ARead; a_sync := false; a_via := "boltz.entitySetSymbolImpl.openBoltCursor" |};
+      {| a_loc := "boltz.entitySetSymbolImpl.store"; a_kind := ARead; a_sync := false; a_via := "boltz.entitySetSymbolImpl.openBoltCursor" |}] |};
   {| h_name := "boltz.BaseStore.IterateValidIds"; h_acc := [
       {| a_loc := "ast.EmptyCursor"; a_kind := ARead; a_sync := false; a_via := "boltz.BaseStore.IterateIds" |};
       {| a_loc := "boltz.BaseStore.entityPath"; a_kind := ARead; a_sync := false; a_via := "boltz.BaseStore.GetEntitiesBucket" |};
       {| a_loc := "boltz.BaseStore.isExtended"; a_kind := ARead; a_sync := false; a_via := "boltz.BaseStore.IsExtended" |};
       {| a_loc := "boltz.BaseStore.mapSymbols"; a_kind := ARead; a_sync := false; a_via := "boltz.BaseStore.GetSymbol" |};
       {| a_loc := "boltz.BaseStore.parent"; a_kind := ARead; a_sync := false; a_via := "boltz.BaseStore.GetEntitiesBucket" |};
-      {| a_loc := "boltz.BaseStore.symbols"; a_kind := ARead; a_sync := true; a_via := "boltz.BaseStore.GetSymbol" |}] |};
+      {| a_loc := "boltz.BaseStore.symbols"; a_kind := ARead; a_sync := true; a_via := "boltz.BaseStore.GetSymbol" |};
+      {| a_loc := "boltz.ExternalSymbol.impl"; a_kind := ARead; a_sync := false; a_via := "boltz.ExternalSymbol.Eval" |};
+      {| a_loc := "boltz.ExternalSymbol.name"; a_kind := ARead; a_sync := false; a_via := "boltz.ExternalSymbol.GetName" |};
+      {| a_loc := "boltz.ExternalSymbol.nodeType"; a_kind := ARead; a_sync := false; a_via := "boltz.ExternalSymbol.GetType" |};
+      {| a_loc := "boltz.NewBoolFuncSymbol$f"; a_kind := ARead; a_sync := false; a_via := "boltz.NewBoolFuncSymbol$lit1" |};
+      {| a_loc := "boltz.NewStringFuncSymbol$f"; a_kind := ARead; a_sync := false; a_via := "boltz.NewStringFuncSymbol$lit1" |};
+      {| a_loc := "boltz.entityIdSymbol.symbolType"; a_kind := ARead; a_sync := false; a_via := "boltz.entityIdSymbol.GetType" |};
+      {| a_loc := "boltz.entitySetSymbolImpl.getBucketF"; a_kind := ARead; a_sync := false; a_via := "boltz.entitySetSymbolImpl.openBoltCursor" |};
+      {| a_loc := "boltz.entitySetSymbolImpl.key"; a_kind := ARead; a_sync := false; a_via := "boltz.entitySetSymbolImpl.openBoltCursor" |};
+      {| a_loc := "boltz.entitySetSymbolImpl.store"; a_kind := ARead; a_sync := false; a_via := "boltz.entitySetSymbolImpl.openBoltCursor" |}] |};
+  {| h_name := "boltz.BaseStore.LoadById"; h_acc := [
+      {| a_loc := "boltz.BaseStore.entityPath"; a_kind := ARead; a_sync := false; a_via := "boltz.BaseStore.GetEntitiesBucket" |};
+      {| a_loc := "boltz.BaseStore.entityStrategy"; a_kind := ARead; a_sync := false; a_via := "boltz.BaseStore.LoadById" |};
+      {| a_loc := "boltz.BaseStore.entityType"; a_kind := ARead; a_sync := false; a_via := "boltz.BaseStore.GetEntityType" |};
+      {| a_loc := "boltz.BaseStore.isExtended"; a_kind := ARead; a_sync := false; a_via := "boltz.BaseStore.IsExtended" |};
+      {| a_loc := "boltz.BaseStore.parent"; a_kind := ARead; a_sync := false; a_via := "boltz.BaseStore.GetEntitiesBucket" |}] |};
+  {| h_name := "boltz.BaseStore.LoadEntity"; h_acc := [
+      {| a_loc := "boltz.BaseStore.entityPath"; a_kind := ARead; a_sync := false; a_via := "boltz.BaseStore.GetEntitiesBucket" |};
+      {| a_loc := "boltz.BaseStore.entityStrategy"; a_kind := ARead; a_sync := false; a_via := "boltz.BaseStore.LoadEntity" |};
+      {| a_loc := "boltz.BaseStore.isExtended"; a_kind := ARead; a_sync := false; a_via := "boltz.BaseStore.IsExtended" |};
+      {| a_loc := "boltz.BaseStore.parent"; a_kind := ARead; a_sync := false; a_via := "boltz.BaseStore.GetEntitiesBucket" |}] |};
   {| h_name := "boltz.BaseStore.NewScanner"; h_acc := [] |};
   {| h_name := "boltz.BaseStore.QueryIds"; h_acc := [
       {| a_loc := "ast.BoolNodeTrue"; a_kind := ARead; a_sync := false; a_via := "ast.Parse" |};
@@ -91,6 +177,15 @@ Definition table : list helper := [
       {| a_loc := "boltz.BaseStore.parent"; a_kind := ARead; a_sync := false; a_via := "boltz.BaseStore.GetEntitiesBucket" |};
       {| a_loc := "boltz.BaseStore.publicSymbols"; a_kind := ARead; a_sync := false; a_via := "boltz.BaseStore.IsPublicSymbol" |};
       {| a_loc := "boltz.BaseStore.symbols"; a_kind := ARead; a_sync := true; a_via := "boltz.BaseStore.GetSymbol" |};
+      {| a_loc := "boltz.ExternalSymbol.impl"; a_kind := ARead; a_sync := false; a_via := "boltz.ExternalSymbol.Eval" |};
+      {| a_loc := "boltz.ExternalSymbol.name"; a_kind := ARead; a_sync := false; a_via := "boltz.ExternalSymbol.GetName" |};
+      {| a_loc := "boltz.ExternalSymbol.nodeType"; a_kind := ARead; a_sync := false; a_via := "boltz.ExternalSymbol.GetType" |};
+      {| a_loc := "boltz.NewBoolFuncSymbol$f"; a_kind := ARead; a_sync := false; a_via := "boltz.NewBoolFuncSymbol$lit1" |};
+      {| a_loc := "boltz.NewStringFuncSymbol$f"; a_kind := ARead; a_sync := false; a_via := "boltz.NewStringFuncSymbol$lit1" |};
+      {| a_loc := "boltz.entityIdSymbol.symbolType"; a_kind := ARead; a_sync := false; a_via := "boltz.entityIdSymbol.GetType" |};
+      {| a_loc := "boltz.entitySetSymbolImpl.getBucketF"; a_kind := ARead; a_sync := false; a_via := "boltz.entitySetSymbolImpl.openBoltCursor" |};
+      {| a_loc := "boltz.entitySetSymbolImpl.key"; a_kind := ARead; a_sync := false; a_via := "boltz.entitySetSymbolImpl.openBoltCursor" |};
+      {| a_loc := "boltz.entitySetSymbolImpl.store"; a_kind := ARead; a_sync := false; a_via := "boltz.entitySetSymbolImpl.openBoltCursor" |};
       {| a_loc := "zitiql.ZitiQlLexerLexerStaticData"; a_kind := AWrite; a_sync := true; a_via := "zitiql.zitiqllexerLexerInit" |};
       {| a_loc := "zitiql.ZitiQlLexerLexerStaticData"; a_kind := ARead; a_sync := false; a_via := "zitiql.NewZitiQlLexer" |};
       {| a_loc := "zitiql.ZitiQlLexerLexerStaticData"; a_kind := ARead; a_sync := true; a_via := "zitiql.ZitiQlLexerInit" |};
@@ -107,17 +202,42 @@ Definition table : list helper := [
       {| a_loc := "boltz.BaseStore.isExtended"; a_kind := ARead; a_sync := false; a_via := "boltz.BaseStore.IsExtended" |};
       {| a_loc := "boltz.BaseStore.mapSymbols"; a_kind := ARead; a_sync := false; a_via := "boltz.BaseStore.GetSymbol" |};
       {| a_loc := "boltz.BaseStore.parent"; a_kind := ARead; a_sync := false; a_via := "boltz.BaseStore.GetEntitiesBucket" |};
-      {| a_loc := "boltz.BaseStore.symbols"; a_kind := ARead; a_sync := true; a_via := "boltz.BaseStore.GetSymbol" |}] |};
+      {| a_loc := "boltz.BaseStore.symbols"; a_kind := ARead; a_sync := true; a_via := "boltz.BaseStore.GetSymbol" |};
+      {| a_loc := "boltz.ExternalSymbol.impl"; a_kind := ARead; a_sync := false; a_via := "boltz.ExternalSymbol.Eval" |};
+      {| a_loc := "boltz.ExternalSymbol.name"; a_kind := ARead; a_sync := false; a_via := "boltz.ExternalSymbol.GetName" |};
+      {| a_loc := "boltz.ExternalSymbol.nodeType"; a_kind := ARead; a_sync := false; a_via := "boltz.ExternalSymbol.GetType" |};
+      {| a_loc := "boltz.NewBoolFuncSymbol$f"; a_kind := ARead; a_sync := false; a_via := "boltz.NewBoolFuncSymbol$lit1" |};
+      {| a_loc := "boltz.NewStringFuncSymbol$f"; a_kind := ARead; a_sync := false; a_via := "boltz.NewStringFuncSymbol$lit1" |};
+      {| a_loc := "boltz.entityIdSymbol.symbolType"; a_kind := ARead; a_sync := false; a_via := "boltz.entityIdSymbol.GetType" |};
+      {| a_loc := "boltz.entitySetSymbolImpl.getBucketF"; a_kind := ARead; a_sync := false; a_via := "boltz.entitySetSymbolImpl.openBoltCursor" |};
+      {| a_loc := "boltz.entitySetSymbolImpl.key"; a_kind := ARead; a_sync := false; a_via := "boltz.entitySetSymbolImpl.openBoltCursor" |};
+      {| a_loc := "boltz.entitySetSymbolImpl.store"; a_kind := ARead; a_sync := false; a_via := "boltz.entitySetSymbolImpl.openBoltCursor" |}] |};
   {| h_name := "boltz.BaseStore.QueryWithCursorC"; h_acc := [
       {| a_loc := "ast.nodeTypeNames"; a_kind := ARead; a_sync := false; a_via := "ast.NodeTypeName" |};
       {| a_loc := "boltz.BaseStore.entityPath"; a_kind := ARead; a_sync := false; a_via := "boltz.BaseStore.GetEntitiesBucket" |};
       {| a_loc := "boltz.BaseStore.isExtended"; a_kind := ARead; a_sync := false; a_via := "boltz.BaseStore.IsExtended" |};
       {| a_loc := "boltz.BaseStore.mapSymbols"; a_kind := ARead; a_sync := false; a_via := "boltz.BaseStore.GetSymbol" |};
       {| a_loc := "boltz.BaseStore.parent"; a_kind := ARead; a_sync := false; a_via := "boltz.BaseStore.GetEntitiesBucket" |};
-      {| a_loc := "boltz.BaseStore.symbols"; a_kind := ARead; a_sync := true; a_via := "boltz.BaseStore.GetSymbol" |}] |};
+      {| a_loc := "boltz.BaseStore.symbols"; a_kind := ARead; a_sync := true; a_via := "boltz.BaseStore.GetSymbol" |};
+      {| a_loc := "boltz.ExternalSymbol.impl"; a_kind := ARead; a_sync := false; a_via := "boltz.ExternalSymbol.Eval" |};
+      {| a_loc := "boltz.ExternalSymbol.name"; a_kind := ARead; a_sync := false; a_via := "boltz.ExternalSymbol.GetName" |};
+      {| a_loc := "boltz.ExternalSymbol.nodeType"; a_kind := ARead; a_sync := false; a_via := "boltz.ExternalSymbol.GetType" |};
+      {| a_loc := "boltz.NewBoolFuncSymbol$f"; a_kind := ARead; a_sync := false; a_via := "boltz.NewBoolFuncSymbol$lit1" |};
+      {| a_loc := "boltz.NewStringFuncSymbol$f"; a_kind := ARead; a_sync := false; a_via := "boltz.NewStringFuncSymbol$lit1" |};
+      {| a_loc := "boltz.entityIdSymbol.symbolType"; a_kind := ARead; a_sync := false; a_via := "boltz.entityIdSymbol.GetType" |};
+      {| a_loc := "boltz.entitySetSymbolImpl.getBucketF"; a_kind := ARead; a_sync := false; a_via := "boltz.entitySetSymbolImpl.openBoltCursor" |};
+      {| a_loc := "boltz.entitySetSymbolImpl.key"; a_kind := ARead; a_sync := false; a_via := "boltz.entitySetSymbolImpl.openBoltCursor" |};
+      {| a_loc := "boltz.entitySetSymbolImpl.store"; a_kind := ARead; a_sync := false; a_via := "boltz.entitySetSymbolImpl.openBoltCursor" |}] |};
+  {| h_name := "boltz.ExternalSymbol.Eval"; h_acc := [
+      {| a_loc := "boltz.ExternalSymbol.impl"; a_kind := ARead; a_sync := false; a_via := "boltz.ExternalSymbol.Eval" |};
+      {| a_loc := "boltz.NewBoolFuncSymbol$f"; a_kind := ARead; a_sync := false; a_via := "boltz.NewBoolFuncSymbol$lit1" |};
+      {| a_loc := "boltz.NewStringFuncSymbol$f"; a_kind := ARead; a_sync := false; a_via := "boltz.NewStringFuncSymbol$lit1" |}] |};
   {| h_name := "boltz.IsErrNotFoundErr"; h_acc := [] |};
   {| h_name := "boltz.IsReferenceExistsError"; h_acc := [] |};
   {| h_name := "boltz.IsUniqueIndexDuplicateError"; h_acc := [] |};
+  {| h_name := "boltz.LinkedSetSymbol.IsLinked"; h_acc := [
+      {| a_loc := "boltz.BaseStore.entityPath"; a_kind := ARead; a_sync := false; a_via := "boltz.BaseStore.GetEntitiesBucket" |};
+      {| a_loc := "boltz.BaseStore.parent"; a_kind := ARead; a_sync := false; a_via := "boltz.BaseStore.GetEntitiesBucket" |}] |};
   {| h_name := "boltz.NewNotFoundError"; h_acc := [] |};
   {| h_name := "boltz.NewReferenceByIdError"; h_acc := [] |};
   {| h_name := "boltz.NewReferenceByIdsError"; h_acc := [] |};
@@ -125,6 +245,129 @@ Definition table : list helper := [
       {| a_loc := "boltz.BaseStore.entityPath"; a_kind := ARead; a_sync := false; a_via := "boltz.BaseStore.GetEntitiesBucket" |};
       {| a_loc := "boltz.BaseStore.parent"; a_kind := ARead; a_sync := false; a_via := "boltz.BaseStore.GetEntitiesBucket" |}] |};
   {| h_name := "boltz.ValidIdsCursors.IsValid"; h_acc := [] |};
+  {| h_name := "boltz.compositeEntitySetSymbol.Eval"; h_acc := [
+      {| a_loc := "boltz.BaseStore.createCompositeEntitySymbol$last"; a_kind := ARead; a_sync := false; a_via := "boltz.BaseStore.createCompositeEntitySymbol$lit2" |};
+      {| a_loc := "boltz.BaseStore.entityPath"; a_kind := ARead; a_sync := false; a_via := "boltz.BaseStore.GetEntitiesBucket" |};
+      {| a_loc := "boltz.BaseStore.newEntitySymbol$prefix"; a_kind := ARead; a_sync := false; a_via := "boltz.BaseStore.newEntitySymbol$lit2" |};
+      {| a_loc := "boltz.BaseStore.parent"; a_kind := ARead; a_sync := false; a_via := "boltz.BaseStore.GetEntitiesBucket" |};
+      {| a_loc := "boltz.ExternalSymbol.impl"; a_kind := ARead; a_sync := false; a_via := "boltz.ExternalSymbol.Eval" |};
+      {| a_loc := "boltz.NewBoolFuncSymbol$f"; a_kind := ARead; a_sync := false; a_via := "boltz.NewBoolFuncSymbol$lit1" |};
+      {| a_loc := "boltz.NewStringFuncSymbol$f"; a_kind := ARead; a_sync := false; a_via := "boltz.NewStringFuncSymbol$lit1" |}] |};
+  {| h_name := "boltz.compositeEntitySetSymbol.OpenCursor"; h_acc := [
+      {| a_loc := "boltz.BaseStore.entityPath"; a_kind := ARead; a_sync := false; a_via := "boltz.BaseStore.GetEntitiesBucket" |};
+      {| a_loc := "boltz.BaseStore.isExtended"; a_kind := ARead; a_sync := false; a_via := "boltz.BaseStore.IsExtended" |};
+      {| a_loc := "boltz.BaseStore.mapSymbols"; a_kind := ARead; a_sync := false; a_via := "boltz.BaseStore.GetSymbol" |};
+      {| a_loc := "boltz.BaseStore.parent"; a_kind := ARead; a_sync := false; a_via := "boltz.BaseStore.GetEntitiesBucket" |};
+      {| a_loc := "boltz.BaseStore.symbols"; a_kind := ARead; a_sync := true; a_via := "boltz.BaseStore.GetSymbol" |};
+      {| a_loc := "boltz.ExternalSymbol.impl"; a_kind := ARead; a_sync := false; a_via := "boltz.ExternalSymbol.Eval" |};
+      {| a_loc := "boltz.ExternalSymbol.name"; a_kind := ARead; a_sync := false; a_via := "boltz.ExternalSymbol.GetName" |};
+      {| a_loc := "boltz.ExternalSymbol.nodeType"; a_kind := ARead; a_sync := false; a_via := "boltz.ExternalSymbol.GetType" |};
+      {| a_loc := "boltz.NewBoolFuncSymbol$f"; a_kind := ARead; a_sync := false; a_via := "boltz.NewBoolFuncSymbol$lit1" |};
+      {| a_loc := "boltz.NewStringFuncSymbol$f"; a_kind := ARead; a_sync := false; a_via := "boltz.NewStringFuncSymbol$lit1" |};
+      {| a_loc := "boltz.entityIdSymbol.symbolType"; a_kind := ARead; a_sync := false; a_via := "boltz.entityIdSymbol.GetType" |};
+      {| a_loc := "boltz.entitySetSymbolImpl.getBucketF"; a_kind := ARead; a_sync := false; a_via := "boltz.entitySetSymbolImpl.openBoltCursor" |};
+      {| a_loc := "boltz.entitySetSymbolImpl.key"; a_kind := ARead; a_sync := false; a_via := "boltz.entitySetSymbolImpl.openBoltCursor" |};
+      {| a_loc := "boltz.entitySetSymbolImpl.store"; a_kind := ARead; a_sync := false; a_via := "boltz.entitySetSymbolImpl.openBoltCursor" |}] |};
+  {| h_name := "boltz.entityIdSymbol.Eval"; h_acc := [] |};
+  {| h_name := "boltz.entitySetSymbolImpl.Eval"; h_acc := [] |};
+  {| h_name := "boltz.entitySetSymbolImpl.EvalStringList"; h_acc := [
+      {| a_loc := "boltz.BaseStore.entityPath"; a_kind := ARead; a_sync := false; a_via := "boltz.BaseStore.GetEntitiesBucket" |};
+      {| a_loc := "boltz.BaseStore.parent"; a_kind := ARead; a_sync := false; a_via := "boltz.BaseStore.GetEntitiesBucket" |};
+      {| a_loc := "boltz.entitySetSymbolImpl.getBucketF"; a_kind := ARead; a_sync := false; a_via := "boltz.entitySetSymbolImpl.EvalStringList" |};
+      {| a_loc := "boltz.entitySetSymbolImpl.key"; a_kind := ARead; a_sync := false; a_via := "boltz.entitySetSymbolImpl.EvalStringList" |};
+      {| a_loc := "boltz.entitySetSymbolImpl.store"; a_kind := ARead; a_sync := false; a_via := "boltz.entitySetSymbolImpl.EvalStringList" |}] |};
+  {| h_name := "boltz.entitySetSymbolRuntime.Eval"; h_acc := [] |};
+  {| h_name := "boltz.entitySetSymbolRuntime.OpenCursor"; h_acc := [
+      {| a_loc := "boltz.BaseStore.entityPath"; a_kind := ARead; a_sync := false; a_via := "boltz.BaseStore.GetEntitiesBucket" |};
+      {| a_loc := "boltz.BaseStore.parent"; a_kind := ARead; a_sync := false; a_via := "boltz.BaseStore.GetEntitiesBucket" |};
+      {| a_loc := "boltz.entitySetSymbolImpl.getBucketF"; a_kind := ARead; a_sync := false; a_via := "boltz.entitySetSymbolImpl.openBoltCursor" |};
+      {| a_loc := "boltz.entitySetSymbolImpl.key"; a_kind := ARead; a_sync := false; a_via := "boltz.entitySetSymbolImpl.openBoltCursor" |};
+      {| a_loc := "boltz.entitySetSymbolImpl.store"; a_kind := ARead; a_sync := false; a_via := "boltz.entitySetSymbolImpl.openBoltCursor" |}] |};
+  {| h_name := "boltz.entitySymbol.Eval"; h_acc := [
+      {| a_loc := "boltz.BaseStore.entityPath"; a_kind := ARead; a_sync := false; a_via := "boltz.BaseStore.GetEntitiesBucket" |};
+      {| a_loc := "boltz.BaseStore.newEntitySymbol$prefix"; a_kind := ARead; a_sync := false; a_via := "boltz.BaseStore.newEntitySymbol$lit2" |};
+      {| a_loc := "boltz.BaseStore.parent"; a_kind := ARead; a_sync := false; a_via := "boltz.BaseStore.GetEntitiesBucket" |}] |};
+  {| h_name := "boltz.linkCollectionImpl.GetLinks"; h_acc := [
+      {| a_loc := "boltz.BaseStore.entityPath"; a_kind := ARead; a_sync := false; a_via := "boltz.BaseStore.GetEntitiesBucket" |};
+      {| a_loc := "boltz.BaseStore.entityType"; a_kind := ARead; a_sync := false; a_via := "boltz.BaseStore.GetEntityType" |};
+      {| a_loc := "boltz.BaseStore.parent"; a_kind := ARead; a_sync := false; a_via := "boltz.BaseStore.GetEntitiesBucket" |};
+      {| a_loc := "boltz.ExternalSymbol.store"; a_kind := ARead; a_sync := false; a_via := "boltz.ExternalSymbol.GetStore" |};
+      {| a_loc := "boltz.entityIdSymbol.path"; a_kind := ARead; a_sync := false; a_via := "boltz.entityIdSymbol.GetPath" |};
+      {| a_loc := "boltz.entityIdSymbol.store"; a_kind := ARead; a_sync := false; a_via := "boltz.entityIdSymbol.GetStore" |};
+      {| a_loc := "boltz.linkCollectionImpl.field"; a_kind := ARead; a_sync := false; a_via := "boltz.linkCollectionImpl.getFieldBucket" |}] |};
+  {| h_name := "boltz.linkCollectionImpl.IsLinked"; h_acc := [
+      {| a_loc := "ast.EmptyCursor"; a_kind := ARead; a_sync := false; a_via := "boltz.linkCollectionImpl.IterateLinks" |};
+      {| a_loc := "boltz.BaseStore.entityPath"; a_kind := ARead; a_sync := false; a_via := "boltz.BaseStore.GetEntitiesBucket" |};
+      {| a_loc := "boltz.BaseStore.entityType"; a_kind := ARead; a_sync := false; a_via := "boltz.BaseStore.GetEntityType" |};
+      {| a_loc := "boltz.BaseStore.isExtended"; a_kind := ARead; a_sync := false; a_via := "boltz.BaseStore.IsExtended" |};
+      {| a_loc := "boltz.BaseStore.mapSymbols"; a_kind := ARead; a_sync := false; a_via := "boltz.BaseStore.GetSymbol" |};
+      {| a_loc := "boltz.BaseStore.parent"; a_kind := ARead; a_sync := false; a_via := "boltz.BaseStore.GetEntitiesBucket" |};
+      {| a_loc := "boltz.BaseStore.symbols"; a_kind := ARead; a_sync := true; a_via := "boltz.BaseStore.GetSymbol" |};
+      {| a_loc := "boltz.ExternalSymbol.impl"; a_kind := ARead; a_sync := false; a_via := "boltz.ExternalSymbol.Eval" |};
+      {| a_loc := "boltz.ExternalSymbol.name"; a_kind := ARead; a_sync := false; a_via := "boltz.ExternalSymbol.GetName" |};
+      {| a_loc := "boltz.ExternalSymbol.nodeType"; a_kind := ARead; a_sync := false; a_via := "boltz.ExternalSymbol.GetType" |};
+      {| a_loc := "boltz.ExternalSymbol.store"; a_kind := ARead; a_sync := false; a_via := "boltz.ExternalSymbol.GetStore" |};
+      {| a_loc := "boltz.NewBoolFuncSymbol$f"; a_kind := ARead; a_sync := false; a_via := "boltz.NewBoolFuncSymbol$lit1" |};
+      {| a_loc := "boltz.NewStringFuncSymbol$f"; a_kind := ARead; a_sync := false; a_via := "boltz.NewStringFuncSymbol$lit1" |};
+      {| a_loc := "boltz.entityIdSymbol.path"; a_kind := ARead; a_sync := false; a_via := "boltz.entityIdSymbol.GetPath" |};
+      {| a_loc := "boltz.entityIdSymbol.store"; a_kind := ARead; a_sync := false; a_via := "boltz.entityIdSymbol.GetStore" |};
+      {| a_loc := "boltz.entityIdSymbol.symbolType"; a_kind := ARead; a_sync := false; a_via := "boltz.entityIdSymbol.GetType" |};
+      {| a_loc := "boltz.entitySetSymbolImpl.getBucketF"; a_kind := ARead; a_sync := false; a_via := "boltz.entitySetSymbolImpl.openBoltCursor" |};
+      {| a_loc := "boltz.entitySetSymbolImpl.key"; a_kind := ARead; a_sync := false; a_via := "boltz.entitySetSymbolImpl.openBoltCursor" |};
+      {| a_loc := "boltz.entitySetSymbolImpl.store"; a_kind := ARead; a_sync := false; a_via := "boltz.entitySetSymbolImpl.openBoltCursor" |};
+      {| a_loc := "boltz.linkCollectionImpl.field"; a_kind := ARead; a_sync := false; a_via := "boltz.linkCollectionImpl.getFieldBucket" |}] |};
+  {| h_name := "boltz.linkCollectionImpl.IterateLinks"; h_acc := [
+      {| a_loc := "ast.EmptyCursor"; a_kind := ARead; a_sync := false; a_via := "boltz.linkCollectionImpl.IterateLinks" |};
+      {| a_loc := "boltz.BaseStore.entityPath"; a_kind := ARead; a_sync := false; a_via := "boltz.BaseStore.GetEntitiesBucket" |};
+      {| a_loc := "boltz.BaseStore.entityType"; a_kind := ARead; a_sync := false; a_via := "boltz.BaseStore.GetEntityType" |};
+      {| a_loc := "boltz.BaseStore.parent"; a_kind := ARead; a_sync := false; a_via := "boltz.BaseStore.GetEntitiesBucket" |};
+      {| a_loc := "boltz.ExternalSymbol.store"; a_kind := ARead; a_sync := false; a_via := "boltz.ExternalSymbol.GetStore" |};
+      {| a_loc := "boltz.entityIdSymbol.path"; a_kind := ARead; a_sync := false; a_via := "boltz.entityIdSymbol.GetPath" |};
+      {| a_loc := "boltz.entityIdSymbol.store"; a_kind := ARead; a_sync := false; a_via := "boltz.entityIdSymbol.GetStore" |};
+      {| a_loc := "boltz.linkCollectionImpl.field"; a_kind := ARead; a_sync := false; a_via := "boltz.linkCollectionImpl.getFieldBucket" |}] |};
+  {| h_name := "boltz.nonSetCompositeEntitySymbol.Eval"; h_acc := [
+      {| a_loc := "boltz.BaseStore.createCompositeEntitySymbol$last"; a_kind := ARead; a_sync := false; a_via := "boltz.BaseStore.createCompositeEntitySymbol$lit2" |};
+      {| a_loc := "boltz.BaseStore.entityPath"; a_kind := ARead; a_sync := false; a_via := "boltz.BaseStore.GetEntitiesBucket" |};
+      {| a_loc := "boltz.BaseStore.newEntitySymbol$prefix"; a_kind := ARead; a_sync := false; a_via := "boltz.BaseStore.newEntitySymbol$lit2" |};
+      {| a_loc := "boltz.BaseStore.parent"; a_kind := ARead; a_sync := false; a_via := "boltz.BaseStore.GetEntitiesBucket" |};
+      {| a_loc := "boltz.ExternalSymbol.impl"; a_kind := ARead; a_sync := false; a_via := "boltz.ExternalSymbol.Eval" |};
+      {| a_loc := "boltz.NewBoolFuncSymbol$f"; a_kind := ARead; a_sync := false; a_via := "boltz.NewBoolFuncSymbol$lit1" |};
+      {| a_loc := "boltz.NewStringFuncSymbol$f"; a_kind := ARead; a_sync := false; a_via := "boltz.NewStringFuncSymbol$lit1" |}] |};
+  {| h_name := "boltz.rcLinkCollectionImpl.GetLinkCount"; h_acc := [
+      {| a_loc := "boltz.BaseStore.entityPath"; a_kind := ARead; a_sync := false; a_via := "boltz.BaseStore.GetEntitiesBucket" |};
+      {| a_loc := "boltz.BaseStore.entityType"; a_kind := ARead; a_sync := false; a_via := "boltz.BaseStore.GetEntityType" |};
+      {| a_loc := "boltz.BaseStore.parent"; a_kind := ARead; a_sync := false; a_via := "boltz.BaseStore.GetEntitiesBucket" |};
+      {| a_loc := "boltz.ExternalSymbol.store"; a_kind := ARead; a_sync := false; a_via := "boltz.ExternalSymbol.GetStore" |};
+      {| a_loc := "boltz.entityIdSymbol.path"; a_kind := ARead; a_sync := false; a_via := "boltz.entityIdSymbol.GetPath" |};
+      {| a_loc := "boltz.entityIdSymbol.store"; a_kind := ARead; a_sync := false; a_via := "boltz.entityIdSymbol.GetStore" |};
+      {| a_loc := "boltz.rcLinkCollectionImpl.field"; a_kind := ARead; a_sync := false; a_via := "boltz.rcLinkCollectionImpl.getFieldBucket" |}] |};
+  {| h_name := "boltz.rcLinkCollectionImpl.GetLinkCounts"; h_acc := [
+      {| a_loc := "boltz.BaseStore.entityPath"; a_kind := ARead; a_sync := false; a_via := "boltz.BaseStore.GetEntitiesBucket" |};
+      {| a_loc := "boltz.BaseStore.parent"; a_kind := ARead; a_sync := false; a_via := "boltz.BaseStore.GetEntitiesBucket" |};
+      {| a_loc := "boltz.ExternalSymbol.store"; a_kind := ARead; a_sync := false; a_via := "boltz.ExternalSymbol.GetStore" |};
+      {| a_loc := "boltz.entityIdSymbol.path"; a_kind := ARead; a_sync := false; a_via := "boltz.entityIdSymbol.GetPath" |};
+      {| a_loc := "boltz.entityIdSymbol.store"; a_kind := ARead; a_sync := false; a_via := "boltz.entityIdSymbol.GetStore" |};
+      {| a_loc := "boltz.rcLinkCollectionImpl.field"; a_kind := ARead; a_sync := false; a_via := "boltz.rcLinkCollectionImpl.GetLinkCounts" |};
+      {| a_loc := "boltz.rcLinkCollectionImpl.otherField"; a_kind := ARead; a_sync := false; a_via := "boltz.rcLinkCollectionImpl.GetLinkCounts" |}] |};
+  {| h_name := "boltz.rcLinkCollectionImpl.IterateLinks"; h_acc := [
+      {| a_loc := "ast.EmptyCursor"; a_kind := ARead; a_sync := false; a_via := "boltz.rcLinkCollectionImpl.IterateLinks" |};
+      {| a_loc := "boltz.BaseStore.entityPath"; a_kind := ARead; a_sync := false; a_via := "boltz.BaseStore.GetEntitiesBucket" |};
+      {| a_loc := "boltz.BaseStore.entityType"; a_kind := ARead; a_sync := false; a_via := "boltz.BaseStore.GetEntityType" |};
+      {| a_loc := "boltz.BaseStore.parent"; a_kind := ARead; a_sync := false; a_via := "boltz.BaseStore.GetEntitiesBucket" |};
+      {| a_loc := "boltz.ExternalSymbol.store"; a_kind := ARead; a_sync := false; a_via := "boltz.ExternalSymbol.GetStore" |};
+      {| a_loc := "boltz.entityIdSymbol.path"; a_kind := ARead; a_sync := false; a_via := "boltz.entityIdSymbol.GetPath" |};
+      {| a_loc := "boltz.entityIdSymbol.store"; a_kind := ARead; a_sync := false; a_via := "boltz.entityIdSymbol.GetStore" |};
+      {| a_loc := "boltz.rcLinkCollectionImpl.field"; a_kind := ARead; a_sync := false; a_via := "boltz.rcLinkCollectionImpl.getFieldBucket" |}] |};
+  {| h_name := "boltz.setIndex.OpenKeyCursor"; h_acc := [
+      {| a_loc := "boltz.setIndex.indexPath"; a_kind := ARead; a_sync := false; a_via := "boltz.setIndex.OpenKeyCursor" |}] |};
+  {| h_name := "boltz.setIndex.OpenValueCursor"; h_acc := [
+      {| a_loc := "boltz.setIndex.indexPath"; a_kind := ARead; a_sync := false; a_via := "boltz.setIndex.OpenValueCursor" |}] |};
+  {| h_name := "boltz.setIndex.Read"; h_acc := [
+      {| a_loc := "boltz.setIndex.indexPath"; a_kind := ARead; a_sync := false; a_via := "boltz.setIndex.Read" |}] |};
+  {| h_name := "boltz.setIndex.ReadKeys"; h_acc := [
+      {| a_loc := "boltz.setIndex.indexPath"; a_kind := ARead; a_sync := false; a_via := "boltz.setIndex.ReadKeys" |}] |};
+  {| h_name := "boltz.uniqueIndex.Read"; h_acc := [
+      {| a_loc := "boltz.uniqueIndex.indexPath"; a_kind := ARead; a_sync := false; a_via := "boltz.uniqueIndex.getIndexBucket" |}] |};
   {| h_name := "zitiql.Parse"; h_acc := [
       {| a_loc := "zitiql.ZitiQlLexerLexerStaticData"; a_kind := AWrite; a_sync := true; a_via := "zitiql.zitiqllexerLexerInit" |};
       {| a_loc := "zitiql.ZitiQlLexerLexerStaticData"; a_kind := ARead; a_sync := false; a_via := "zitiql.NewZitiQlLexer" |};
